@@ -23,6 +23,15 @@ Definition run_df (l : list Z) : list Z :=
   | [] => []
   end.
 
+(* ---- ESC: mode bytes... : mode 0 = escape_ascii(bytes); mode 1 = escape_default of one byte (library model) ---- *)
+Definition run_escape (l : list Z) : list Z :=
+  match l with
+  | mode :: d =>
+      if mode =? 0 then match escape_ascii d tt with Val v _ => enc_bytes v | Panic _ => [PANIC] end
+      else enc_bytes (escape_default (hd 0 d))
+  | [] => []
+  end.
+
 (* deframer selector shared by API / RF families:
    0 line, 1 crlf, 2 null, 3 always-reject, 4 always-panic,
    5 length-prefix: first byte k, frame = next k bytes (range 1..1+k, block 1+k),
